@@ -79,6 +79,10 @@ inductive PStmt where
   | pass
   | unsupported (what : String)               -- a construct outside the subset: interpreting it fails
   | tryExcept (body handler : PBlock)         -- `try: <one statement> except Exception [as e]: handler` (see `execStmt`)
+  | while_ (c : PExpr) (body : PBlock)        -- `while c: body` (no `else`): meaning given by the fuelled semantics `Isotp.Py.exec2S` only
+  | tryCatch (body : PBlock) (cls : String) (handler : PBlock)
+                                              -- `try: body except <cls> [as e]: handler`, any body: meaning given by `exec2S` only
+  | break_                                    -- `break` (inside a `while_`): meaning given by `exec2S` only
 inductive PBlock where
   | nil
   | cons (s : PStmt) (rest : PBlock)
@@ -372,6 +376,9 @@ def execStmt (M : Meths) (env : Env) : PStmt → Except PErr Flow
       | .ok f => .ok f
       | .error (.exc _) => execBlock M env handler
       | .error e => .error e
+  | .while_ _ _ => .error (.unsupported "while")
+  | .tryCatch _ _ _ => .error (.unsupported "try")
+  | .break_ => .error (.unsupported "break")
 def execBlock (M : Meths) (env : Env) : PBlock → Except PErr Flow
   | .nil => .ok (.next env)
   | .cons s rest => do
